@@ -221,7 +221,8 @@ class fixed_world:
         import d42.generation  # noqa: F401  (the package attribute _generator is an instance)
         g = sys.modules["d42.generation._generator"]
         self._g = g
-        self._saved = (g.uuid4, g.datetime, g.date)
+        self._saved = {n: getattr(g, n) for n in ("uuid4", "datetime", "date") if hasattr(g, n)}
+        self._saved_uuid4 = _uuid.uuid4
         counter = [0]
 
         def uuid4():
@@ -238,9 +239,15 @@ class fixed_world:
             def today(cls):
                 return _dt.date(2024, 2, 29)
 
-        g.uuid4, g.datetime, g.date = uuid4, _DT, _D
+        for n, repl in (("uuid4", uuid4), ("datetime", _DT), ("date", _D)):
+            if n in self._saved:
+                setattr(g, n, repl)
+        _uuid.uuid4 = uuid4
         return self
 
     def __exit__(self, *exc):
-        self._g.uuid4, self._g.datetime, self._g.date = self._saved
+        import uuid as _uuid
+        for n, v in self._saved.items():
+            setattr(self._g, n, v)
+        _uuid.uuid4 = self._saved_uuid4
         return False
